@@ -404,7 +404,7 @@ func (p *parent) runJob(j job) []job {
 			b, _ := os.ReadFile(f)
 			for _, blk := range splitRaceBlocks(string(b)) {
 				v := Violation{Property: p.chk.ID, Suite: j.suite.Name, Idx: j.from, Seed: p.seed, Tier: p.tier,
-					Class: "race", Sig: raceSig(blk), Detail: blk, Case: map[string]int{"from": j.from, "to": j.to}}
+					Class: "race", Sig: raceSig(blk), Detail: blk, Case: rawJSON(map[string]int{"from": j.from, "to": j.to})}
 				p.mu.Lock()
 				p.violations = append(p.violations, v)
 				p.mu.Unlock()
@@ -463,9 +463,9 @@ func (p *parent) runJob(j job) []job {
 
 // tagsFromDesc lets a case pre-declare tags inside its journaled description
 // ({"tags":[...]}) so that a process death can still be attributed.
-func tagsFromDesc(desc interface{}) []string {
-	m, ok := desc.(map[string]interface{})
-	if !ok {
+func tagsFromDesc(desc json.RawMessage) []string {
+	var m map[string]interface{}
+	if json.Unmarshal(desc, &m) != nil {
 		return nil
 	}
 	raw, ok := m["tags"].([]interface{})
@@ -518,7 +518,7 @@ func classifyDeath(stderr string, hang bool) (class, sig string) {
 }
 
 // readJournal returns the index of the case in flight when the worker died.
-func readJournal(path string) (idx int, desc interface{}, hang bool) {
+func readJournal(path string) (idx int, desc json.RawMessage, hang bool) {
 	idx = -1
 	f, err := os.Open(path)
 	if err != nil {
@@ -556,9 +556,8 @@ func readJournal(path string) (idx int, desc interface{}, hang bool) {
 	}
 	idx = open
 	if descIdx == idx && lastDesc != nil {
-		var d interface{}
-		if json.Unmarshal(lastDesc, &d) == nil {
-			desc = d
+		if json.Valid(lastDesc) {
+			desc = append(json.RawMessage(nil), lastDesc...)
 		}
 	}
 	return
